@@ -138,7 +138,7 @@ impl TlsClientConfig {
             .as_ref()
             .map(load_certs)
             .unwrap_or_else(|| Ok(vec![]))?;
-        if certs.is_empty() {
+        if self.ca.is_none() {
             ret.add_server_trust_anchors(webpki_roots::TLS_SERVER_ROOTS.0.iter().map(|ta| {
                 OwnedTrustAnchor::from_subject_spki_name_constraints(
                     ta.subject,
